@@ -177,6 +177,17 @@ def run(ctx):
         Fb = [[Q(0, 0, Fraction(2) ** h, 0), Q(), Q()], [Q(), Q(1), Q()], [Q(), Q(), Q(0, 0, 0, Fraction(1, 2 ** h))]]
         da, db_, dab = (float(utils.det(qx.to_np(M), 'Dieudonne')) for M in (Fa, Fb, qx.mm(Fa, Fb)))
         if not abs(dab - da * db_) <= 1e-9 * abs(da * db_) or not abs(da - 1.0) <= 1e-9: viol('C11:det:graded:multiplicative', f'det(AB) = {dab!r} but det(A) det(B) = {da * db_!r} for two graded diagonal factors', {'exponent': h}, dab, da * db_)
+    # large matrices whose determinant is far from 1 but an ordinary double (products of many moderate singular values): c times a quaternion
+    # permutation matrix with unit-quaternion entries, det = c^n exactly
+    for nbig, cval in ((90, 8.0), (90, 0.125), (64, 10.0)) if ctx.quick() else ((90, 8.0), (90, 0.125), (64, 10.0), (120, 0.25), (120, 4.0)):
+        perm = list(range(nbig)); rng.shuffle(perm); unitsq = [quaternion.quaternion(1, 0, 0, 0), quaternion.quaternion(0, 1, 0, 0), quaternion.quaternion(0, 0, 1, 0), quaternion.quaternion(0.5, 0.5, 0.5, -0.5)]
+        Mb = np.zeros((nbig, nbig), dtype=np.quaternion)
+        for i in range(nbig): Mb[i, perm[i]] = unitsq[i % 4] * cval
+        want = cval ** nbig; inp = {'class': 'c times a quaternion permutation matrix', 'n': nbig, 'c': cval}
+        try: dbig = float(utils.det(Mb, 'Dieudonne'))
+        except Exception as ex: viol('C11:det:large:raises', f'det raised {ex!r}', inp); continue
+        if not (math.isfinite(dbig) and abs(dbig - want) <= 1e-9 * want): viol('C11:det:large', f'Dieudonne determinant of {cval} x (unitary permutation), n = {nbig}, is {dbig!r}; the product of its singular values is {want!r}', inp, dbig, want)
+        ctx.count(('det-large', nbig, cval), True)
     from .c02 import rexp_ref
     def _herm_patterns(n):
         out = []
